@@ -87,8 +87,11 @@ theorem opCopy_lim {o : Opts} {r : Root} {op : Op} {sop : Spec.Op} {f : Bytes}
           simp only [eng_copySrc] at hsrc
           rcases bind_fail hsrc with hf | ⟨a, _, hx⟩
           · have hw := withPath_class (o := o) (act := actCopySrc o) hr hpf (by simp)
-              (fun key _ hkey => actCopySrc_class hkey) hf
+              (fun key _ => actCopySrc_class) hf
             rw [← copySource_eq] at hw
+            have hne : f ≠ [] := fun h => by
+              have := (parsePointer_nil_iff hpf).2 h; cases this
+            rw [copyFirst_ne o r hne]
             obtain ⟨ha, hcl⟩ := failOfW_class (r := r) hw
             simp only [ha]
             exact hcl
@@ -104,14 +107,14 @@ theorem opCopy_lim {o : Opts} {r : Root} {op : Op} {sop : Spec.Op} {f : Bytes}
           have hw2 : WalkRef o.esc r1 (fun _ _ => True)
               (Spec.atParent (specOpts o) (fun p _ => (.ok (p, ()) : Res (Value × Unit))) (den r1.con) (pt :: pts))
               (withPath o r1 op.path actProbe) :=
-            withPath_walkRef hr1 hp (by simp) (fun key _ _ => actProbe_ref)
+            withPath_walkRef hr1 hp (by simp) (fun key _ => actProbe_ref)
           cases hres2 : Spec.atParent (specOpts o) (fun p _ => (.ok (p, ()) : Res (Value × Unit)))
               (den r.con) (pt :: pts) with
           | unspec => trivial
           | fail c =>
             rw [← hd1] at hres2
             have hw := withPath_class (o := o) (act := actProbe) hr1 hp (by simp)
-              (fun key _ _ => actProbe_class) hres2
+              (fun key _ => actProbe_class) hres2
             obtain ⟨ha2, hcl⟩ := failOfW_class (r := r1) hw
             simp only [ha2]
             exact hcl
@@ -163,7 +166,7 @@ theorem opCopy_lim {o : Opts} {r : Root} {op : Op} {sop : Spec.Op} {f : Bytes}
                 have hadd := hres3
                 rw [← hd2, ← hdv, ← hcpd] at hadd
                 have hwc := withPath_class (o := o) (act := actAdd o (deepCopy o.esc val).1) (path := op.path)
-                  hr2 hp (by simp) (fun key hmem _ => actAdd_class hcp (hq _ hp key hmem)) hadd
+                  hr2 hp (by simp) (fun key hmem => actAdd_class hcp (hq _ hp key hmem)) hadd
                 obtain ⟨ha3, hcl⟩ := failOfW_class (r := { r1 with con := con2 }) hwc
                 simp only [ha3]
                 exact hcl
